@@ -148,6 +148,45 @@ def sorted_before_lookup(P, chk):
                 "rate vectors are pushed to by %s" % sorted(pushers), "only the builder's insert_impl pushes rates")
 
 
+RATE_VEC_OPS = {
+    "push": "a price event is recorded (insert_impl)",
+    "sort": "sorted once before lookup (build_naive)", "sort_unstable": "same", "sort_by_key": "same", "sort_unstable_by_key": "same",
+    "sort_by": "same", "sort_unstable_by": "same",
+    "clear": "a higher-priority source replaces lower-priority rates (source-precedence rule checks when)",
+    "partition_point": "as-of lookup", "len": "read", "is_empty": "read", "iter": "read", "get": "read", "index": "read", "last": "read",
+    "first": "read", "deref": "read", "deref_mut": "borrow for sort", "as_slice": "read", "binary_search_by_key": "read", "binary_search_by": "read",
+}
+
+
+def rate_records_kept(P, chk):
+    """no recorded (date, rate) is ever dropped, merged or rewritten: only reviewed operations touch a rate vector"""
+    n = 0
+    bad = []
+    for body in P.bodies.values():
+        if not q.not_test(body) or not body.key.startswith(PD):
+            continue
+        for bb, t in body.calls():
+            if not t["args"] or t["args"][0].get("k") not in ("copy", "move"):
+                continue
+            ty = body.local_ty(t["args"][0]["place"]["l"])
+            if not ("NaiveDate" in ty and "Decimal" in ty and ("Vec<" in ty or "[(" in ty)):
+                continue
+            if "HashMap" in ty or "Entry" in ty.split("Vec<")[0]:
+                continue
+            cd = callee_def(t) or ""
+            if not (cd.startswith(("std::vec::Vec::", "core::slice::", "std::slice::", "std::ops::Deref", "std::ops::Index")) or "slice" in cd):
+                continue
+            nm = cd.rsplit("::", 1)[-1]
+            n += 1
+            if nm not in RATE_VEC_OPS:
+                bad.append("%s at %s" % (nm, body.loc(bb)))
+    chk.add_sites(n)
+    chk.floor("operations on rate vectors", n, 3)
+    chk.require(not bad, R_SORT, "rates|recorded prices are never dropped, merged or rewritten", "",
+                "a rate vector is modified by %s: the as-of price (and its date, which feeds staleness) can change" % bad,
+                "only push / sort / the tabled clear, otherwise reads (%d operations)" % n)
+
+
 ALL_ELEMENT_ADAPTORS = {"values_mut", "iter_mut", "flat_map", "flatten", "into_iter", "by_ref", "map", "iter", "values"}
 
 
@@ -407,6 +446,7 @@ def run(P, chk, tier):
     chk.rule(R_E9, "conversion errors are propagated by every caller in okane-core")
     as_of(P, chk)
     sorted_before_lookup(P, chk)
+    rate_records_kept(P, chk)
     source_precedence(P, chk)
     distance_order(P, chk)
     convert_single(P, chk)
